@@ -1,5 +1,6 @@
 SPECIFICATION MCSpec
 CONSTANTS
+  KeepHist = FALSE
   MaxC = 3
   MaxW = 2
   Opts = {"00", "01", "10", "11"}
